@@ -518,11 +518,12 @@ class OutputVariable(Variable):
         # as a (writable) array, because weighted defuzzifiers return read-only numpy floats in float mode
         value = array(self.defuzzifier.defuzzify(self.fuzzy, self.minimum, self.maximum))
 
-        # previous value is the last element of the value at t
-        self.previous_value = np.take(self.value, -1).astype(float)
+        # previous value is the last element of the value at t (an empty batch holds no value: the previous value stays)
+        if np.size(self.value) > 0:
+            self.previous_value = np.take(self.value, -1).astype(float)
 
         # Locking previous values
-        if self.lock_previous:
+        if self.lock_previous and np.size(value) > 0:
             with np.nditer(value, op_flags=[["readwrite"]]) as iterator:
                 previous_value = self.previous_value
                 for value_i in iterator:
